@@ -71,3 +71,12 @@ def c19_normalize_fraction_times_sum(c, k):
     with a constant is distributed, so a second normalisation changes the form.  Only that shape, with both forms proved
     equal in value, is covered."""
     return c.get('kind') == 'normalize-not-idempotent' and c.get('shape') == 'fraction-times-sum'
+
+
+@matcher('c19_normalize_splits_root_of_product')
+def c19_normalize_splits_root_of_product(c, k):
+    """poly.normalize turns sqrt(c * x * a) with a negative constant c into (a multiple of) sqrt(x) * sqrt(-a): the root of a
+    product is split into roots of the factors and the sign is put on whichever factor comes first, here a, which the conditions
+    make positive.  Only this shape (square root of negative constant times two variables, normalised) is covered."""
+    import re
+    return c.get('kind') == 'step-loses-definedness:normalize' and re.fullmatch(r'sqrt\(-[0-9/]+ \* x \* a\)', str(c.get('before', ''))) is not None
